@@ -283,7 +283,8 @@ pub fn check(p: &Prog, rep: &mut Report) {
 }
 
 pub fn space(thorough: bool) -> Vec<Prog> {
-    let table = resource_table(thorough);
+    // the whole table is cheap: both tiers explore all of it; the tier only widens the placement space
+    let table = resource_table(true);
     let mut out = vec![];
     // every table entry: all legal stages at once, and each single legal stage
     for r in &table {
@@ -293,7 +294,7 @@ pub fn space(thorough: bool) -> Vec<Prog> {
                 user_sets.push(vec![*s]);
             }
         }
-        if !thorough && r.id.starts_with("storage-texture") {
+        if false && r.id.starts_with("storage-texture") {
             user_sets.truncate(2);
         }
         for us in user_sets {
@@ -325,13 +326,22 @@ pub fn space(thorough: bool) -> Vec<Prog> {
             }
         }
     }
+    // visibility is part of the interface check: resources reached through helpers, with the call and the
+    // access at every placement context and in every call form (C03's placement space), judged by check_stage
+    let (placed, _) = crate::c03::space_b(thorough);
+    for p in placed {
+        out.push(Prog { key: format!("placed|{}", p.key), src: p.src, groups: 1 });
+    }
+    for p in crate::c03::space_c(false) {
+        out.push(Prog { key: format!("placed|{}", p.key), src: p.src, groups: 1 });
+    }
     out
 }
 
 pub fn run(tier: &str) -> i32 {
     let mut rep = Report::new("C02", tier);
     // the whole table is cheap (<2 s): both tiers explore all of it
-    let progs = space(true);
+    let progs = space(rep.thorough());
     let results = par_map(&progs, |p| {
         let mut r = Report::new("C02", tier);
         check(p, &mut r);
